@@ -274,8 +274,9 @@ def main_wrapper(fn, prop, tier, level):
     except ToolError as e:
         print(f"TOOL-ERROR property={prop}: {e}")
         ctx.notes["error"] = str(e)[:2000]
-        ctx.finish()
-        rc = 2
+        rc = ctx.finish()
+        # a monitor failure observed before the tool problem is still a verdict
+        rc = 1 if rc == 1 else 2
     except subprocess.TimeoutExpired as e:
         print(f"TOOL-ERROR property={prop}: timeout {e}")
         rc = 2
